@@ -7,6 +7,7 @@ from common import setup_path
 
 setup_path()
 _CELL = re.compile(r"^s(\d+)r(\d+)c(\d+)")
+_GRP = re.compile(r"^s(\d+)g(\d+)$")
 
 
 def run_one(sc):
@@ -18,14 +19,25 @@ def run_one(sc):
     dfs, bodies, hdrs, exp = [], [], [], []
     mode = opts.get("body", "own")
     one_body = None if mode == "own" else (rtf.RTFBody() if mode == "shared" else rtf.RTFBody(col_rel_width=[1]))
+    rot = opts.get("pb", "none") == "rot"
     for si, s in enumerate(secs, 1):
-        cols = ["c%d_%d" % (si, j) for j in range(1, s["m"] + 1)]
-        rows = [["s%dr%dc%d%s" % (si, r, j, "  " if (r + j) % 3 == 0 else "") for j in range(1, s["m"] + 1)] for r in range(1, s["n"] + 1)]
+        m = s["m"]
+        cols = ["c%d" % j for j in range(1, m + 1)] if rot else ["c%d_%d" % (si, j) for j in range(1, m + 1)]
+        rows = [["s%dr%dc%d%s" % (si, r, j, "  " if (r + j) % 3 == 0 else "") for j in range(1, m + 1)] for r in range(1, s["n"] + 1)]
         data = {c: [rows[r][j] for r in range(s["n"])] for j, c in enumerate(cols)}
+        jp = (si - 1) % m if (rot and m >= 2) else None
+        relw = [j + 1 for j in range(m)] if rot else [1] * m
+        if jp is not None:
+            half = (s["n"] + 1) // 2
+            data[cols[jp]] = ["s%dg%d" % (si, 1 if r < half else 2) for r in range(s["n"])]
         dfs.append(pl.DataFrame(data, schema={c: pl.Utf8 for c in cols}))
-        bodies.append(rtf.RTFBody() if one_body is None else one_body)
-        hdrs.append([rtf.RTFColumnHeader(text=["~H%d.%d~" % (si, j) for j in range(1, s["m"] + 1)])] if s["hdr"] == "explicit" else [None])
-        exp.append({"n": s["n"], "m": s["m"], "rows": rows})
+        if rot:
+            bodies.append(rtf.RTFBody(col_rel_width=list(relw), **({"page_by": [cols[jp]]} if jp is not None else {})))
+        else:
+            bodies.append(rtf.RTFBody() if one_body is None else one_body)
+        shown = [j for j in range(m) if j != jp]
+        hdrs.append([rtf.RTFColumnHeader(text=["~H%d.%d~" % (si, j + 1) for j in shown])] if s["hdr"] == "explicit" else [None])
+        exp.append({"n": s["n"], "m": len(shown), "rows": [[rows[r][j] for j in shown] for r in range(s["n"])], "relw": [relw[j] for j in shown]})
     kw = {"rtf_title": rtf.RTFTitle(text="~T~") if opts["title"] else None}
     if opts["foot"] != "none":
         kw["rtf_footnote"] = rtf.RTFFootnote(text="~FN~", as_table=(opts["foot"] == "table"))
@@ -56,6 +68,8 @@ def run_one(sc):
                 ev.append(dict(common, k="colhdr", sec=int(t[0][2:].split(".")[0])))
             elif m:
                 ev.append(dict(common, k="data", sec=int(m.group(1)), r=int(m.group(2))))
+            elif t and len(t) == 1 and _GRP.match(t[0]):
+                ev.append(dict(common, k="head", sec=int(_GRP.match(t[0]).group(1))))
             else:
                 ev.append(dict(common, k="data"))
     rec["c"] = {"secs": exp, "W": int(round(page.col_width * 1440)), "pagefirst": "double", "pagelast": "thick"}
